@@ -29,7 +29,7 @@ ASSUMPTIONS = [
     "handler instances are not shared between threads (the library documents that a handler does not support concurrent use)",
 ]
 
-H_KINDS = ["completed", "cancel_S", "cancel_D", "limit", "abandon", "stuck_reset", "lossy", "reset_undrained"]
+H_KINDS = ["completed", "cancel_S", "cancel_D", "limit", "abandon", "stuck_reset", "lossy", "reset_undrained", "abandon_queued"]
 T_KINDS = ["empty", "small", "multi_loss", "multi_random", "md_only", "cancelled", "silenced"]
 
 
@@ -43,6 +43,23 @@ class SilencePlan(Plan):
     def on_emit(self, idx, item):
         if idx >= self.k and item["side"] in self.sides:
             self.applied.append((idx, "drop", wire.short(item["d"]), item["side"]))
+            return []
+        return [("now", item["raw"])]
+
+
+class StormPlan(Plan):
+    """the first copy of every second File Data PDU is lost"""
+
+    def __init__(self, seg):
+        super().__init__()
+        self.seg = seg
+        self.seen = set()
+
+    def on_emit(self, idx, item):
+        d = item["d"]
+        if item["side"] == "S" and d.get("kind") == "FD" and (d["offset"] // max(1, self.seg)) % 2 == 1 and d["offset"] not in self.seen:
+            self.seen.add(d["offset"])
+            self.applied.append((idx, "drop", wire.short(d), "S"))
             return []
         return [("now", item["raw"])]
 
@@ -79,6 +96,14 @@ def gen_cases(tier, seed):
     n = 1500 if tier == "quick" else 40000
     for i in range(n):
         cases.append({"t": "history", "script": gen_script(rng)})
+    # directed: the receiver abandons a transaction in a call which had already queued a PDU (a NAK, then File Size Error -> abandon)
+    for i in range(60 if tier == "quick" else 600):
+        sc = gen_script(rng, nh=rng.choice([1, 2]))
+        sc["base"].update({"seg": 4, "imm_nak": True})
+        sc["base"]["fh_dst"] = dict(sc["base"].get("fh_dst") or {}, FILE_SIZE_ERROR="abandon")
+        sc["base"].setdefault("fh_src", {})
+        sc["hist"][-1].update({"kind": "abandon_queued", "mode": "ack"})
+        cases.append({"t": "history", "script": sc})
     n = 300 if tier == "quick" else 8000
     for i in range(n):
         k = rng.choice([2, 2, 3, 4])
@@ -92,7 +117,15 @@ def gen_cases(tier, seed):
                 # the shared MIB objects stay as they are while the siblings run (a change would legitimately be seen by all of them)
                 for spec in sc["hist"] + [sc["t"]]:
                     spec["mib"] = None
-        cases.append({"t": "siblings", "scripts": scripts, "order_seed": rng.randrange(1 << 30), "share_mib": share})
+        cases.append({"t": "siblings", "scripts": scripts, "order_seed": rng.randrange(1 << 30), "share_mib": share, "by_call": i % 2 == 1})
+    # directed sibling pairs: both senders serve many NAKs at the same time, one while it is still sending file data (immediate NAKs), the
+    # other while it waits for the ACK of its EOF / for the Finished PDU (deferred NAK sequences of several PDUs)
+    for i in range(40 if tier == "quick" else 400):
+        scripts = [gen_script(rng, nh=0) for _ in range(2)]
+        for j, sc in enumerate(scripts):
+            sc["base"].update({"seg": 4, "maxpkt": 36, "imm_nak": j == 0, "nak_limit": 4, "ack_limit": 4})
+            sc["t"].update({"kind": "nak_storm", "mode": "ack", "mib": None})
+        cases.append({"t": "siblings", "scripts": scripts, "order_seed": rng.randrange(1 << 30), "share_mib": False, "by_call": True})
     n = 6 if tier == "quick" else 60
     for i in range(n):
         cases.append({"t": "threads", "scripts": [[gen_script(rng, nh=rng.choice([0, 1, 2])) for _ in range(6 if tier == "quick" else 12)] for _ in range(4)],
@@ -105,7 +138,7 @@ def gen_cases(tier, seed):
 
 def setup_transaction(w: World, spec, kind, content_tag):
     """prepares files/config for the next transaction on world w; returns (plan, actions, max_expiries)"""
-    size = {"empty": 0, "small": 3, "multi_loss": 23, "multi_random": 29, "md_only": 0, "cancelled": 23, "silenced": 9}.get(kind, spec.get("size", 9))
+    size = {"empty": 0, "small": 3, "multi_loss": 23, "multi_random": 29, "md_only": 0, "cancelled": 23, "silenced": 9, "abandon_queued": 10, "nak_storm": 41}.get(kind, spec.get("size", 9))
     w.cfg["metadata_only"] = kind == "md_only"
     w.cfg["size"] = size
     # the width of the destination id given in the put request may differ from request to request (the MIB is keyed by value)
@@ -135,6 +168,15 @@ def setup_transaction(w: World, spec, kind, content_tag):
     elif kind == "stuck_reset":
         plan = SilencePlan(spec["at"] % 4 + 1, "S")
         max_exp = 6
+    elif kind == "nak_storm":
+        plan = StormPlan(4)
+    elif kind == "abandon_queued":
+        # segment [4,8) never arrives, the EOF announces 3 bytes less than were sent and the last segment arrives after it: with immediate
+        # NAKs the late segment queues a NAK for the gap and is then found to exceed the EOF's file size
+        from .c14 import StimPlan
+
+        plan = StimPlan({"size_error_fd", "dst_nak_limit"}, random.Random(spec["seed"]))
+        max_exp = 8
     return plan, actions, max_exp
 
 
@@ -281,6 +323,70 @@ def run_history_case(case):
     return {"viol": viol, "obs": obs, "sig": case, "sample": {"history": notes, "t": sc["t"], "events": len(tr_a)} if len(notes) > 2 else None}
 
 
+class Baton:
+    """Deterministic hand-over between the threads of a sibling case: exactly one runs at a time, and at every API call boundary a seeded
+    choice decides who goes on (interleaving at the granularity of single handler calls)."""
+
+    def __init__(self, n, seed):
+        self.rng = random.Random(seed)
+        self.cv = threading.Condition()
+        self.alive = set(range(n))
+        self.cur = self.rng.choice(sorted(self.alive))
+        self.switches = 0
+
+    def wait_turn(self, i):
+        with self.cv:
+            while self.cur != i:
+                self.cv.wait()
+
+    def hand_over(self, i):
+        with self.cv:
+            nxt = self.rng.choice(sorted(self.alive))
+            if nxt != i:
+                self.switches += 1
+                self.cur = nxt
+                self.cv.notify_all()
+                while self.cur != i:
+                    self.cv.wait()
+
+    def done(self, i):
+        with self.cv:
+            self.alive.discard(i)
+            if self.alive:
+                self.cur = self.rng.choice(sorted(self.alive))
+            self.cv.notify_all()
+
+
+def run_siblings_by_call(case, scripts, worlds, solos, viol, obs):
+    baton = Baton(len(scripts), case["order_seed"])
+    results = [None] * len(scripts)
+    errors = []
+
+    def work(i):
+        w, sc = worlds[i], scripts[i]
+        baton.wait_turn(i)
+        try:
+            w.call_hook = lambda: baton.hand_over(i)
+            run_history(w, sc["hist"])
+            tr, dest, _ = run_t(w, sc["t"])
+            results[i] = (tr, dest)
+        except BaseException as e:  # noqa: BLE001
+            errors.append(f"{type(e).__name__}: {e}")
+        finally:
+            w.call_hook = None
+            baton.done(i)
+
+    ths = [threading.Thread(target=work, args=(i,), daemon=True) for i in range(len(scripts))]
+    for t in ths:
+        t.start()
+    for t in ths:
+        t.join(timeout=120)
+    if any(t.is_alive() for t in ths) or errors:
+        raise RuntimeError(f"sibling threads did not finish (watchdog) or failed: {errors[:2]}")
+    obs["sibling_cases_interleaved_by_call"] = 1
+    return results, baton.switches
+
+
 def run_siblings_case(case):
     """(c): every script's T next to siblings must equal its solo trace (computed on reused handlers, solo)."""
     viol, obs = [], {}
@@ -344,6 +450,9 @@ def run_siblings_case(case):
         gens = {i: make(i) for i in range(len(scripts))}
         switches = 0
         last = None
+        if case.get("by_call"):
+            gens = {}
+            results, switches = run_siblings_by_call(case, scripts, worlds, solos, viol, obs)
         while gens:
             i = rng.choice(sorted(gens))
             if last is not None and i != last:
@@ -465,4 +574,4 @@ def run_case(case):
 NO_DEV_MODE = True  # -X dev slows the LINE callbacks down by an order of magnitude
 
 REQUIRED = {"fresh_vs_reused_equal": 500, "sibling_traces_equal": 300, "thread_traces_equal": 50, "yields_injected": 1000, "sibling_switches": 1000,
-            "hist_completed": 50, "hist_cancel_S": 50, "hist_cancel_D": 50, "hist_limit": 50, "hist_abandon": 50, "hist_stuck_reset": 50, "hist_lossy": 50, "hist_reset_undrained": 50}
+            "hist_completed": 50, "hist_cancel_S": 50, "hist_cancel_D": 50, "hist_limit": 50, "hist_abandon": 50, "hist_stuck_reset": 50, "hist_lossy": 50, "hist_reset_undrained": 50, "hist_abandon_queued": 40, "sibling_cases_interleaved_by_call": 50}
